@@ -394,18 +394,17 @@ def judge_rules(sh, a, out, alone, res=None):
     if res is not None:
         res.clauses['C06.rule'] += 1
     used = M.used_namespaces(sh.tree)
-    texts = []
+    want = M.tokens(out.decode('utf-8'))
+    pos = 0
     for node, text in zip(sh.tree, alone):
         if node['k'] == 'namespace' and a['keepUsedNamespaceRulesOnly'] and node['uri'] not in used:
             continue
-        if text:
-            texts.append(text)
-    got = M.tokens(a['lineSeparator'].join(texts))
-    want = M.tokens(out.decode('utf-8'))
-    if got != want:
-        i = next((i for i, (x, y) in enumerate(zip(got, want)) if x != y), min(len(got), len(want)))
-        w = want[i] if i < len(want) else ('<end>', '')
-        return [('C06.rule', f'rule-alone-differs-from-rule-in-sheet|{w[0]}', [list(x) for x in want[max(0, i - 2):i + 2]], [list(x) for x in got[max(0, i - 2):i + 2]])]
+        got = M.tokens(text) if text else []
+        if want[pos:pos + len(got)] != got:
+            return [('C06.rule', f'rule-alone-differs-from-rule-in-sheet|{node["k"]}', [list(x) for x in want[pos:pos + 6]], [list(x) for x in got[:6]])]
+        pos += len(got)
+    if pos != len(want):
+        return [('C06.rule', 'sheet-has-more-than-its-rules|sheet', [], [list(x) for x in want[pos:pos + 6]])]
     return []
 
 
@@ -596,7 +595,7 @@ def plan(tier):
 
 
 def cube_assignment(i):
-    """i-th point of the cube in simplest-first order within a chunk is not needed: deviations = the set bits"""
+    """i-th point of the cube: the booleans whose bit is set deviate from the default"""
     return [(p, not M.DEFAULTS[p]) for k, p in enumerate(CUBE) if i >> k & 1]
 
 
